@@ -157,7 +157,8 @@ def run(common, rng, quick, sources, nesting_depth):
         if depth > BIG_DEPTH:
             skipped["syntactic nesting estimate > %d (deep inside the class of the known finding C01-stack-depth)" % BIG_DEPTH] += 1
             continue
-        if len(s) > MAX_BYTES or depth > MAX_DEPTH:
+        if len(s) > MAX_BYTES or depth > MAX_DEPTH or s.count(";") > 200:
+            # (fourth audit: definitions of several hundred statements take the extracted mirrors many seconds: own process)
             big.append((label, s, depth))
             continue
         progs.append((label, s))
